@@ -9,55 +9,219 @@ namespace Rzmq.C13
 open Rzmq
 
 theorem good_init : Lb.Good {} := by
-  sorry
+  exact ⟨List.nodup_nil, Or.inl rfl⟩
 
-theorem good_add (l : Lb) (u : Nat) (h : Lb.Good l) : Lb.Good (l.add u) := by
-  sorry
+theorem good_add (l : Lb) (u : Nat) (h : Lb.Good l) (h0 : l.peers = [] → l.nextIdx = 0) :
+    Lb.Good (l.add u) := by
+  exact Lb.good_add_fixed l u h h0
+
+inductive LbOp where
+  | add (u : Nat) | remove (u : Nat) | next
+deriving DecidableEq, Repr
+
+def applyLb (l : Lb) : LbOp → Lb
+  | .add u => l.add u
+  | .remove u => l.remove u
+  | .next => l.next.2
+
+/-- every state reachable from the empty balancer by any history of add/remove/next satisfies the invariant
+all the theorems below assume -/
+theorem good_reachable (ops : List LbOp) : Lb.Good (ops.foldl applyLb {}) := by
+  suffices h : ∀ (l : Lb), Lb.Good' l → Lb.Good' (ops.foldl applyLb l) from (h {} Lb.good'_init).good
+  induction ops with
+  | nil => intro l h; exact h
+  | cons op rest ih =>
+    intro l h
+    apply ih
+    cases op with
+    | add u => exact Lb.good'_add l u h
+    | remove u => exact Lb.good'_remove l u h
+    | next => exact Lb.good'_next l h
 
 theorem good_remove (l : Lb) (u : Nat) (h : Lb.Good l) : Lb.Good (l.remove u) := by
-  sorry
+  obtain ⟨hnd, hc⟩ := h
+  unfold Lb.remove
+  split
+  · exact ⟨hnd, hc⟩
+  next pos hs =>
+    obtain ⟨hlt, _⟩ := Lb.idxOf?_some hs
+    refine ⟨hnd.eraseIdx pos, ?_⟩
+    have hlen : (l.peers.eraseIdx pos).length = l.peers.length - 1 := List.length_eraseIdx_of_lt hlt
+    rcases hc with he | hc
+    · rw [he] at hlt; simp at hlt
+    · simp only
+      by_cases h1 : (pos < l.nextIdx && l.nextIdx > 0) = true
+      · rw [if_pos h1]
+        simp at h1
+        right; omega
+      · rw [if_neg h1]
+        by_cases h2 : l.nextIdx ≥ (l.peers.eraseIdx pos).length
+        · rw [if_pos h2]
+          by_cases h3 : (l.peers.eraseIdx pos).length = 0
+          · left; exact List.length_eq_zero_iff.mp h3
+          · right; omega
+        · rw [if_neg h2]
+          right; omega
 
 theorem good_next (l : Lb) (h : Lb.Good l) : Lb.Good l.next.2 := by
-  sorry
+  by_cases hne : l.peers = []
+  · rw [Lb.next_of_nil l hne]; exact h
+  · rw [Lb.next_of_ne l hne]
+    refine ⟨h.1, Or.inr ?_⟩
+    exact Nat.mod_lt _ (Lb.length_pos_of_ne hne)
 
 theorem next_returns_cursor (l : Lb) (h : Lb.Good l) : l.next.1 = l.upNext := by
-  sorry
+  by_cases hne : l.peers = []
+  · rw [Lb.next_of_nil l hne]
+    simp [Lb.upNext, hne]
+  · rw [Lb.next_of_ne l hne]
+    have hlt : l.nextIdx < l.peers.length := by
+      rcases h.2 with he | hlt
+      · exact absurd he hne
+      · exact hlt
+    simp only [Lb.upNext]
+    rw [if_neg (by omega)]
 
 /-- round robin: `k` consecutive `get_next_connection` calls return the peers in cyclic list order starting at
 the cursor -/
 theorem round_robin (l : Lb) (h : Lb.Good l) (hne : l.peers ≠ []) (k : Nat) :
     Lb.nexts k l = (List.range k).map fun j => l.peers[(l.nextIdx + j) % l.peers.length]? := by
-  sorry
+  induction k generalizing l with
+  | zero => simp [Lb.nexts]
+  | succ k ih =>
+    have hlt : l.nextIdx < l.peers.length := by
+      rcases h.2 with he | hlt
+      · exact absurd he hne
+      · exact hlt
+    have hg := good_next l h
+    have hp := Lb.next_peers l
+    have hne' : l.next.2.peers ≠ [] := by rw [hp]; exact hne
+    rw [Lb.nexts, ih l.next.2 hg hne', List.range_succ_eq_map, hp]
+    have hn : l.next = (l.peers[l.nextIdx]?, { l with nextIdx := (l.nextIdx + 1) % l.peers.length }) := by
+      rw [Lb.next_of_ne l hne, if_neg (by omega)]
+    rw [hn]
+    simp only [List.map_cons, List.map_map, Nat.add_zero, Nat.mod_eq_of_lt hlt]
+    congr 1
+    apply List.map_congr_left
+    intro j _
+    simp only [Function.comp, Nat.succ_eq_add_one]
+    rw [Nat.mod_add_mod]
+    congr 2
+    omega
 
 /-- fairness / no starvation: in any window of `n` consecutive selections (n = number of peers) every peer is
 selected exactly once -/
 theorem each_peer_once_per_round (l : Lb) (h : Lb.Good l) (hne : l.peers ≠ []) (u : Nat) (hu : u ∈ l.peers) :
     (Lb.nexts l.peers.length l).count (some u) = 1 := by
-  sorry
+  rw [round_robin l h hne]
+  have hlt : l.nextIdx < l.peers.length := by
+    rcases h.2 with he | hlt
+    · exact absurd he hne
+    · exact hlt
+  obtain ⟨m, hm⟩ := List.getElem?_of_mem hu
+  have hmlt : m < l.peers.length := by
+    rcases Nat.lt_or_ge m l.peers.length with h' | h'
+    · exact h'
+    · rw [List.getElem?_eq_none h'] at hm; cases hm
+  rw [List.count_eq_countP, List.countP_map]
+  have key : List.countP ((fun x => x == some u) ∘ fun j => l.peers[(l.nextIdx + j) % l.peers.length]?)
+      (List.range l.peers.length)
+      = List.countP (fun j => j == (if l.nextIdx ≤ m then m - l.nextIdx else m + l.peers.length - l.nextIdx))
+        (List.range l.peers.length) := by
+    apply List.countP_congr
+    intro j hj
+    have hj' : j < l.peers.length := List.mem_range.mp hj
+    have hmod := Lb.mod_lt_two (l.nextIdx + j) l.peers.length (by omega)
+    simp only [Function.comp, beq_iff_eq]
+    constructor
+    · intro hx
+      have : (l.nextIdx + j) % l.peers.length = m :=
+        (List.getElem?_inj (Nat.mod_lt _ (by omega)) h.1).mp (by rw [hx, hm])
+      split at hmod <;> split <;> omega
+    · intro hx
+      have : (l.nextIdx + j) % l.peers.length = m := by
+        split at hmod <;> split at hx <;> omega
+      rw [this, hm]
+  rw [key, ← List.count_eq_countP, List.count_range]
+  rw [if_pos]
+  split <;> omega
 
 /-- adding a peer never changes who is served next (it joins at the end of the rotation), and adding a present
 peer is a no-op: no message is sent twice because of a re-add -/
 theorem add_keeps_cursor (l : Lb) (u : Nat) (h : Lb.Good l) (hne : l.peers ≠ []) :
     (l.add u).upNext = l.upNext := by
-  sorry
+  have hlt : l.nextIdx < l.peers.length := by
+    rcases h.2 with he | hlt
+    · exact absurd he hne
+    · exact hlt
+  unfold Lb.add Lb.upNext
+  split
+  · rfl
+  · simp only
+    rw [List.getElem?_append_left hlt]
 
 theorem add_idempotent (l : Lb) (u : Nat) : (l.add u).add u = l.add u := by
-  sorry
+  by_cases hc : u ∈ l.peers
+  · simp [Lb.add, hc]
+  · simp [Lb.add, hc]
 
 /-- cursor repair on removal neither skips nor repeats: removing a peer other than the one under the cursor
 leaves the next selection unchanged; removing the one under the cursor moves on to its successor -/
 theorem remove_no_skip (l : Lb) (u : Nat) (h : Lb.Good l) (v : Nat) (hv : l.upNext = some v) (huv : u ≠ v) :
     (l.remove u).upNext = some v := by
-  sorry
+  have hv' : l.peers[l.nextIdx]? = some v := hv
+  have hnlt : l.nextIdx < l.peers.length := by
+    rcases Nat.lt_or_ge l.nextIdx l.peers.length with h' | h'
+    · exact h'
+    · rw [List.getElem?_eq_none h'] at hv'; cases hv'
+  unfold Lb.remove
+  split
+  · exact hv
+  next pos hs =>
+    obtain ⟨hlt, hu⟩ := Lb.idxOf?_some hs
+    have hne : pos ≠ l.nextIdx := by
+      intro he
+      rw [he, hv'] at hu
+      exact huv (Option.some.inj hu).symm
+    have hlen : (l.peers.eraseIdx pos).length = l.peers.length - 1 := List.length_eraseIdx_of_lt hlt
+    simp only [Lb.upNext]
+    by_cases h1 : (pos < l.nextIdx && l.nextIdx > 0) = true
+    · rw [if_pos h1]
+      simp at h1
+      rw [List.getElem?_eraseIdx, if_neg (by omega)]
+      rw [show l.nextIdx - 1 + 1 = l.nextIdx by omega]
+      exact hv'
+    · rw [if_neg h1]
+      have h3 : l.nextIdx < pos := by
+        simp at h1
+        omega
+      rw [if_neg (by omega), List.getElem?_eraseIdx, if_pos h3]
+      exact hv'
 
 theorem remove_current_moves_to_successor (l : Lb) (u : Nat) (h : Lb.Good l) (hu : l.upNext = some u)
     (hlen : 1 < l.peers.length) :
     (l.remove u).upNext = l.peers[(l.nextIdx + 1) % l.peers.length]? := by
-  sorry
+  have hu' : l.peers[l.nextIdx]? = some u := hu
+  have hidx := Lb.idxOf?_of_getElem? h.1 hu'
+  obtain ⟨hlt, _⟩ := Lb.idxOf?_some hidx
+  have hlen' := List.length_eraseIdx_of_lt hlt
+  unfold Lb.remove
+  rw [hidx]
+  simp only [Lb.upNext]
+  rw [if_neg (by simp)]
+  by_cases h2 : l.nextIdx ≥ (l.peers.eraseIdx l.nextIdx).length
+  · rw [if_pos h2, List.getElem?_eraseIdx, if_pos (by omega)]
+    have h3 : l.nextIdx + 1 = l.peers.length := by omega
+    rw [h3, Nat.mod_self]
+  · rw [if_neg h2, List.getElem?_eraseIdx, if_neg (by omega), Nat.mod_eq_of_lt (by omega)]
 
 /-- a removed peer is never selected again (until re-added) -/
 theorem removed_never_selected (l : Lb) (u : Nat) (h : Lb.Good l) (k : Nat) :
     some u ∉ Lb.nexts k (l.remove u) := by
-  sorry
+  intro hmem
+  rcases Lb.mem_nexts k _ _ hmem with hn | ⟨v, hv, hs⟩
+  · cases hn
+  · cases hs
+    exact Lb.not_mem_remove l u h.1 hv
 
 end Rzmq.C13
